@@ -1,13 +1,13 @@
 SPECIFICATION MCSpec
 CONSTANTS
-  MAX = 3
-  Payloads <- Pay3
-  RawValid <- RawValid3
-  RawOversized <- RawBig3
-  MaxFrames = 2
+  MAX = 2
+  Payloads <- Pay2
+  RawValid <- RawValid2
+  RawOversized <- RawBig2
+  MaxFrames = 4
   BufferOversized = FALSE
   NonceReuse = FALSE
-  AllowReconnect = FALSE
+  AllowReconnect = TRUE
   NoncePerSession = FALSE
   DupDeliver = FALSE
 INVARIANTS C14_InOrderExactlyOnce C14_NothingLost C14_FreshNonce C14_Encrypted C14_OversizedNotSent C14_OversizedNotAccepted C14_OversizedCloses C14_NotBuffered
